@@ -66,4 +66,52 @@ theorem gen_csv_row (o : Opts) (row : List Text) : csv_row (row.map (renderField
   unfold csv_row renderRow
   simp [rt_join_eq]
 
+/-! ## the double loop as a whole (`csv_text`): `for` loops are left folds of the lifted bodies -/
+
+theorem foldl_push {α β} (f : α → β) (l : List α) (init : List β) :
+    List.foldl (fun st x => st ++ [f x]) init l = init ++ l.map f := by
+  induction l generalizing init with
+  | nil => simp
+  | cons a l ih => simp [ih]
+
+theorem foldl_append {α β} (h : α → List β) (l : List α) (init : List β) :
+    List.foldl (fun st x => st ++ h x) init l = init ++ l.flatMap h := by
+  induction l generalizing init with
+  | nil => simp
+  | cons a l ih => simp [ih]
+
+/-- `worksheet.get_cell((column, row))` + `get_value()` on the model's grid -/
+def gridCell (g : Grid) : Nat × Nat → Option Text := fun p => g.lookup (p.2, p.1)
+
+/-- the body of the column loop: fetch (a missing cell is the empty text), the field pipeline, `row_vec.push(value)` -/
+theorem gen_csv_column_body (g : Grid) (o : Opts) (row : Nat) (rv : List Text) (col : Nat) :
+    csv_text_loop_0_loop_0 o.trim (gridCell g) (wrapText o.wrap) row rv col =
+      rv ++ [renderField o (g.get (row + 1) (col + 1))] := by
+  unfold csv_text_loop_0_loop_0 renderField fieldValue quoted escape Grid.get gridCell
+  simp only [Nat.add_comm 1]
+  cases hl : List.lookup (row + 1, col + 1) g <;> cases hw : o.wrap with
+  | none =>
+    cases ht : o.trim <;>
+      simp [wrapText, rt_trim_eq, replace_char_one, replace_str_one, rt_repeat_two, needsQuote, List.any_eq_true] <;>
+      (split <;> simp_all)
+  | some q =>
+    cases ht : o.trim <;>
+      simp [wrapText, rt_trim_eq, replace_char_one, replace_str_one, rt_repeat_two]
+
+/-- the body of the row loop: the column loop from an empty `row_vec`, then `join(",")` and CR LF appended to `data` -/
+theorem gen_csv_row_body (g : Grid) (o : Opts) (mc : Nat) (data : Text) (row : Nat) :
+    csv_text_loop_0 o.trim (gridCell g) (wrapText o.wrap) mc data row =
+      data ++ renderRow o ((List.range mc).map fun col => g.get (row + 1) (col + 1)) := by
+  unfold csv_text_loop_0 renderRow
+  simp only [gen_csv_column_body, foldl_push, rt_join_eq, List.nil_append, List.map_map, Function.comp_def, List.append_assoc]
+
+/-- the string `data` built by `write_writer` as it is in the source — both loops, the fetch of every cell, the field
+    pipeline, `join`, the line terminator — is the model's text, for every grid, every option record of the modelled
+    fragment and every pair of bounds -/
+theorem gen_csv_text (g : Grid) (o : Opts) (mc mr : Nat) :
+    csv_text o.trim (gridCell g) (wrapText o.wrap) mc mr =
+      (List.range mr).flatMap fun row => renderRow o ((List.range mc).map fun col => g.get (row + 1) (col + 1)) := by
+  unfold csv_text
+  simp only [gen_csv_row_body, foldl_append, List.nil_append]
+
 end Umya.Gen
